@@ -127,8 +127,19 @@ func distinctKeys(t *rapid.T, n int, safe bool) []string {
 	return r
 }
 
+// maxLeaves bounds one generated value: deeply nested collection types
+// (eight levels of up to nine entries each) would otherwise, once in a
+// million programs, give a literal of a gigabyte.
+const maxLeaves = 3000
+
 // GenValue draws a JSON value conforming to ty.
 func (u *Universe) GenValue(t *rapid.T, ty Ty, cfg *ValueCfg) any {
+	n := 0
+	return u.genValue(t, ty, cfg, &n)
+}
+
+func (u *Universe) genValue(t *rapid.T, ty Ty, cfg *ValueCfg, leaves *int) any {
+	*leaves++
 	if cfg.NullPct > 0 && rapid.IntRange(0, 99).Draw(t, "null") < cfg.NullPct {
 		return nil
 	}
@@ -138,16 +149,19 @@ func (u *Universe) GenValue(t *rapid.T, ty Ty, cfg *ValueCfg) any {
 	}
 	if el, ok := ty.Elem(); ok {
 		n := rapid.IntRange(0, maxLen).Draw(t, "len")
+		if *leaves > maxLeaves {
+			n = 0
+		}
 		if ty.IsArray() {
 			arr := make([]any, 0, n)
 			for i := 0; i < n; i++ {
-				arr = append(arr, u.GenValue(t, el, cfg))
+				arr = append(arr, u.genValue(t, el, cfg, leaves))
 			}
 			return arr
 		}
 		o := jsonx.NewObj()
 		for _, k := range distinctKeys(t, n, cfg.SafeKeys || u.IsFileish(el)) {
-			o.Set(k, u.GenValue(t, el, cfg))
+			o.Set(k, u.genValue(t, el, cfg, leaves))
 		}
 		return o
 	}
@@ -182,7 +196,7 @@ func (u *Universe) GenValue(t *rapid.T, ty Ty, cfg *ValueCfg) any {
 			fields = rapid.Permutation(fields).Draw(t, "fieldOrder")
 		}
 		for _, f := range fields {
-			o.Set(f.Name, u.GenValue(t, f.T, cfg))
+			o.Set(f.Name, u.genValue(t, f.T, cfg, leaves))
 		}
 		return o
 	}
